@@ -7,6 +7,7 @@ import PrioModel.Prng
 import PrioModel.TraceVdaf
 import PrioModel.IdpfExec
 import PrioModel.Poly
+import PrioModel.Flp
 
 /-! Line-protocol driver: one request per line on stdin, one answer per line on stdout. -/
 open Prio
@@ -460,10 +461,64 @@ def handlePoly (op : String) (args : List String) : String :=
     | _, _ => "bad-op"
   | [] => "bad-op"
 
+def parseTypeSpec (s : String) : Option Flp.TypeSpec :=
+  match s.splitOn ":" with
+  | ["count"] => some .count
+  | ["sum", b] => b.toNat?.map .sum
+  | ["hist", l, c] => do pure (.histogram (← l.toNat?) (← c.toNat?))
+  | ["mhot", l, bw, lw, c] => do pure (.multihot (← l.toNat?) (← bw.toNat?) (← lw.toNat?) (← c.toNat?))
+  | ["svec", l, b, lw, c] => do pure (.sumVec (← l.toNat?) (← b.toNat?) (← lw.toNat?) (← c.toNat?))
+  | ["l1", l, b, lw, c] => do pure (.l1BoundSum (← l.toNat?) (← b.toNat?) (← lw.toNat?) (← c.toNat?))
+  | _ => none
+
+def fieldCtx (name : String) (q : Nat) : Flp.FieldCtx (Fin (q + 1)) :=
+  ⟨rootOf name q, halfOf name q, Fin.ofNat (q + 1)⟩
+
+def showFlp {q : Nat} (sz : Nat) (r : Flp.Res (List (Fin (q + 1)))) : String :=
+  match r with
+  | .ok v => "ok " ++ toHex (encodeFieldVec sz v)
+  | .err => "err"
+  | .panic => "panic"
+
+def handleFlp (op : String) (args : List String) : String :=
+  match args with
+  | f :: ts :: rest =>
+    match parseTypeSpec ts with
+    | none => "bad-op"
+    | some t => withField f fun q sz =>
+      let C := fieldCtx f q
+      let vec (h : String) : Option (List (Fin (q + 1))) := hexVec q sz h
+      match op, rest with
+      | "lens", [] =>
+        s!"{t.inputLen} {t.proofLen} {t.verifierLen} {t.jointRandLen} {t.evalOutputLen} {t.proveRandLen} {t.queryRandLen} {t.outputLen}"
+      | "valid", [inp, jr, ns] =>
+        match vec inp, vec jr, ns.toNat? with
+        | some i, some j, some n => showFlp sz (Flp.valid C t i j n)
+        | _, _, _ => "bad-op"
+      | "prove", [inp, pr, jr] =>
+        match vec inp, vec pr, vec jr with
+        | some i, some p, some j => showFlp sz (Flp.prove C t i p j)
+        | _, _, _ => "bad-op"
+      | "query", [inp, pf, qr, jr, ns] =>
+        match vec inp, vec pf, vec qr, vec jr, ns.toNat? with
+        | some i, some p, some qq, some j, some n => showFlp sz (Flp.query C t i p qq j n)
+        | _, _, _, _, _ => "bad-op"
+      | "decide", [v] =>
+        match vec v with
+        | some v =>
+          match Flp.decide C t v with
+          | .ok b => s!"ok {b}"
+          | .err => "err"
+          | .panic => "panic"
+        | none => "bad-op"
+      | _, _ => "bad-op"
+  | _ => "bad-op"
+
 def handle (line : String) : String :=
   match line.trimAscii.toString.splitOn " " with
   | "fp" :: rest => handleFp rest
   | "dec" :: rest => handleDec rest
+  | "flp" :: op :: rest => handleFlp op rest
   | "poly" :: op :: rest => handlePoly op rest
   | "idpf" :: rest => handleIdpf rest
   | "pp" :: r :: sl :: sh :: toks =>
